@@ -96,13 +96,16 @@ def check(ctx):
     # ---- C06.1 arity
     lens = find_terms(b, tb, lambda x: x[0] in ('call', 'len') and (call_name(x) == 'len' or x[0] == 'len')
                       and contains(x, lambda y: y[0] == 'vfield' and y[2] == 'Array'))
+    def len_base(x):
+        return strip_sites(x[1] if x[0] == 'len' else x[2][0])
     for bi, si, t in node_accepts:
-        if len(lens) != 1:
+        # `.len()` calls and the built-in slice length are the same quantity when taken of the same collection
+        if not lens or len({len_base(x) for x in lens}) != 1:
             ctx.fail('C06.1', ctx.site(b, bi, si), 'no (single) element-count test found before the node accept exit', key='C06.1|nolen')
             continue
         verdicts = {}
         for n in (0, 1, 2, 3):
-            verdicts[n] = bi in reach_under(b, tb, {lens[0]: n})
+            verdicts[n] = bi in reach_under(b, tb, {x: n for x in lens})
         if verdicts == {0: False, 1: False, 2: True, 3: True}:
             ctx.ok('C06.1', ctx.site(b, bi, si), 'node accept reachable iff element count >= 2 (valuation table %s)' % verdicts, sample=verdicts)
         else:
